@@ -69,6 +69,36 @@ pub fn pool() -> Vec<(String, Message)> {
         t.biases[389].satellite_id = 64;
         out.push(("1059 sat 64 (fails in the list)".into(), Message::Msg1059(t)));
     }
+    // satellites whose entries all carry a signal without an SSR id (they are announced with a bias count of zero),
+    // at the start, in the middle and at the end of the list
+    {
+        let ok = |s: u8, b: u8, a: char, v: f32| Msg1059CodeBias { satellite_id: s, signal_id: GpsSigId::new(b, a), bias_m: v };
+        for (name, l) in [
+            ("1059 one satellite without encodable signal", vec![ok(3, 9, 'Z', 1.0)]),
+            ("1059 zero-bias satellite first", vec![ok(1, 9, 'Z', 1.0), ok(3, 1, 'C', -0.5), ok(5, 2, 'W', 0.25)]),
+            ("1059 zero-bias satellite in the middle", vec![ok(1, 1, 'C', -0.5), ok(3, 9, 'Z', 1.0), ok(3, 1, 'S', 1.0), ok(5, 2, 'W', 0.25)]),
+            ("1059 zero-bias satellite last", vec![ok(1, 1, 'C', -0.5), ok(5, 2, 'W', 0.25), ok(63, 9, 'Z', 1.0)]),
+            ("1059 only zero-bias satellites", vec![ok(0, 9, 'Z', 1.0), ok(31, 1, 'S', 1.0), ok(63, 0, '\0', 1.0)]),
+        ] {
+            let mut t = Msg1059T::default();
+            for e in l {
+                t.biases.push(e);
+            }
+            out.push((name.into(), Message::Msg1059(t)));
+        }
+        let okg = |s: u8, b: u8, a: char, v: f32| Msg1065CodeBias { satellite_id: s, signal_id: GloSigId::new(b, a), bias_m: v };
+        for (name, l) in [
+            ("1065 zero-bias satellite first", vec![okg(1, 9, 'Z', 1.0), okg(3, 1, 'C', -0.5), okg(5, 2, 'P', 0.25)]),
+            ("1065 zero-bias satellite in the middle", vec![okg(1, 1, 'C', -0.5), okg(3, 9, 'Z', 1.0), okg(5, 2, 'P', 0.25)]),
+            ("1065 only zero-bias satellites", vec![okg(0, 9, 'Z', 1.0), okg(31, 7, 'Q', 1.0)]),
+        ] {
+            let mut t = Msg1065T::default();
+            for e in l {
+                t.biases.push(e);
+            }
+            out.push((name.into(), Message::Msg1065(t)));
+        }
+    }
     // near-maximum frames of many different lengths: 1059 with 390 negative biases spread over s satellites
     // (payload = 73 + 11 s + 7410 bits: 1015..1022 bytes for s = 54..63), and 1065 likewise
     for s_cnt in 50..=63usize {
